@@ -89,6 +89,7 @@ func checkC05(c *Ctx, r *rep.Report) {
 	verifierRules(r, p, rl, fl)
 	ruleSmallOrder(r, p, rl)
 	ruleZipFlagUses(r, p, rl)
+	ruleBatchAll(c, r, p, rl, fl)
 }
 
 func checkC07(c *Ctx, r *rep.Report) {
@@ -108,6 +109,7 @@ func checkC07(c *Ctx, r *rep.Report) {
 	ruleVerifyWrappers(r, p, rl, fl)
 	ruleSignCore(r, p, rl, fl)
 	ruleSignWrappers(r, p, rl, fl)
+	ruleBatchAll(c, r, p, rl, fl)
 }
 
 func checkC14(c *Ctx, r *rep.Report) {
